@@ -212,6 +212,10 @@ type Stats struct {
 type filtersInitializerParams struct {
 	allowFilters []Filter
 	blockFilters []Filter
+
+	// gen is the number of this set of filters in the order the sets have
+	// been made in.
+	gen uint64
 }
 
 type hostChecker struct {
@@ -268,6 +272,14 @@ type DNSFilter struct {
 	// Channel for passing data to filters-initializer goroutine
 	filtersInitializerChan chan filtersInitializerParams
 	filtersInitializerLock sync.Mutex
+
+	// filtersGen is the number of the latest set of filters made to build the
+	// engines from.
+	filtersGen atomic.Uint64
+
+	// enginesGen is the number of the set of filters the current engines are
+	// built from.  It is protected by engineLock.
+	enginesGen uint64
 
 	refreshLock *sync.Mutex
 
@@ -412,10 +424,12 @@ func (d *DNSFilter) WriteDiskConfig(c *Config) {
 //
 // In this case the caller must ensure that the old filter files are intact.
 func (d *DNSFilter) setFilters(blockFilters, allowFilters []Filter, async bool) error {
+	gen := d.filtersGen.Add(1)
 	if async {
 		params := filtersInitializerParams{
 			allowFilters: allowFilters,
 			blockFilters: blockFilters,
+			gen:          gen,
 		}
 
 		d.filtersInitializerLock.Lock()
@@ -437,7 +451,7 @@ func (d *DNSFilter) setFilters(blockFilters, allowFilters []Filter, async bool) 
 		return nil
 	}
 
-	return d.initFiltering(allowFilters, blockFilters)
+	return d.initFilteringGen(gen, allowFilters, blockFilters)
 }
 
 // Close - close the object
@@ -797,6 +811,14 @@ func newRuleStorage(filters []Filter) (rs *filterlist.RuleStorage, err error) {
 
 // Initialize urlfilter objects.
 func (d *DNSFilter) initFiltering(allowFilters, blockFilters []Filter) (err error) {
+	return d.initFilteringGen(d.filtersGen.Add(1), allowFilters, blockFilters)
+}
+
+// initFilteringGen builds the engines from the set of filters number gen.  The
+// engines may be built in several goroutines at once, for example for a set
+// queued by one API call and for the one of the next call, which does it
+// itself.  Whichever ends last, the engines of the latest set stay.
+func (d *DNSFilter) initFilteringGen(gen uint64, allowFilters, blockFilters []Filter) (err error) {
 	rulesStorage, err := newRuleStorage(blockFilters)
 	if err != nil {
 		return err
@@ -810,16 +832,28 @@ func (d *DNSFilter) initFiltering(allowFilters, blockFilters []Filter) (err erro
 	filteringEngine := urlfilter.NewDNSEngine(rulesStorage)
 	filteringEngineAllow := urlfilter.NewDNSEngine(rulesStorageAllow)
 
-	func() {
+	isStale := func() (ok bool) {
 		d.engineLock.Lock()
 		defer d.engineLock.Unlock()
+
+		if gen < d.enginesGen {
+			return true
+		}
 
 		d.reset()
 		d.rulesStorage = rulesStorage
 		d.filteringEngine = filteringEngine
 		d.rulesStorageAllow = rulesStorageAllow
 		d.filteringEngineAllow = filteringEngineAllow
+		d.enginesGen = gen
+
+		return false
 	}()
+	if isStale {
+		log.Debug("filtering: engines of a newer set of filters are in use already")
+
+		return errors.Join(rulesStorage.Close(), rulesStorageAllow.Close())
+	}
 
 	// Make sure that the OS reclaims memory as soon as possible.
 	debug.FreeOSMemory()
@@ -1117,7 +1151,7 @@ func (d *DNSFilter) updatesLoop() {
 	for {
 		select {
 		case params := <-d.filtersInitializerChan:
-			err := d.initFiltering(params.allowFilters, params.blockFilters)
+			err := d.initFilteringGen(params.gen, params.allowFilters, params.blockFilters)
 			if err != nil {
 				log.Error("filtering: initializing: %s", err)
 
